@@ -557,6 +557,7 @@ def run(ctx):
             # from the algorithm the parser recognised, which must therefore be the complete identifier (curve included)
             import c11
             common.borrow_rules(rep, lambda: c11.check_spki(cfg, crate, rep), "C11.", "C02.spki")
+            c11.check_pub(cfg, crate, rep, rule="C02.spki")
     art = common.artefact(ctx.crate("K1"), common.CERT_FN)
     if art.tbs:
         rep.sample({"rule": "C02.schema", "inferred_tree_head": S.render(art.I, art.tbs)[:40]})
